@@ -269,6 +269,9 @@ func c16Fold(inputs []any) (any, error) {
 	return doc, nil
 }
 
+// c16Tokens: string leaves include texts that print like an int / a bool.
+func c16Tokens() { vSetTokens("s0", "1", "true", "s3") }
+
 func c16Check(inputs []any, excludeKnown bool) {
 	for i, in := range inputs {
 		vObserve("input"+string(rune('0'+i)), in)
@@ -317,6 +320,7 @@ func c16Check(inputs []any, excludeKnown bool) {
 
 // HarnessC16_pair: two inputs, maps of depth <= 2.
 func HarnessC16_pair() {
+	c16Tokens()
 	if vTier() > 0 {
 		// thorough: a map of depth <= 2 against a flat map, in both
 		// argument orders (lists: [] only; lists with entries are
@@ -349,6 +353,7 @@ func HarnessC16_pair() {
 // (<= 2 entries each, thorough 3): every pattern of shared, repeated and
 // reordered entries.
 func HarnessC16_lists() {
+	c16Tokens()
 	L := 2
 	if vTier() > 0 {
 		L = 3
@@ -366,6 +371,7 @@ func HarnessC16_lists() {
 
 // HarnessC16_self: intersecting a document with itself returns it.
 func HarnessC16_self() {
+	c16Tokens()
 	a := ndMap(3, keysAB, 2, ndScalarNN)
 	if r := c16ListRegion([]any{a, a}); r != "" {
 		vCover("known." + r)
@@ -380,6 +386,7 @@ func HarnessC16_self() {
 
 // HarnessC16_three: three inputs of depth <= 1.
 func HarnessC16_three() {
+	c16Tokens()
 	a := ndMap(1, keysAB, 0, ndScalarNN)
 	b := ndMap(1, keysAB, 0, ndScalarNN)
 	c := ndMap(1, keysAB, 0, ndScalarNN)
